@@ -20,8 +20,8 @@ import (
 
 // inputCase is one replayable evaluation.
 type inputCase struct {
-	N       int      `json:"n"`               // leaves ever added
-	Alive   string   `json:"alive"`           // "1011": which are live
+	N       int      `json:"n"`                // leaves ever added
+	Alive   string   `json:"alive"`            // "1011": which are live
 	SynthN  uint64   `json:"synthN,omitempty"` // synthetic stump: NumLeaves (roots are fresh hashes)
 	Ver     string   `json:"verifier"`
 	Targets []uint64 `json:"targets"`
